@@ -527,7 +527,28 @@ func hashData(home, txnPkg, common *pkg, recvType, method string) []entry {
 				die("%s: if condition not recognised: %s", pos(s), src(st.Cond))
 			}
 			lazyOf := map[string]string{}
+			alwaysOf := map[string]string{} // field unconditionally overwritten with a method result before it is written
 			for _, bs := range st.Body.List {
+				// recv.P.F = recv.P.M()
+				if as, ok := bs.(*ast.AssignStmt); ok {
+					if as.Tok != token.ASSIGN || len(as.Lhs) != 1 || len(as.Rhs) != 1 {
+						die("%s: assignment not recognised: %s", pos(bs), src(bs))
+					}
+					f, ok := selPath(as.Lhs[0], c.recv)
+					call, ok2 := as.Rhs[0].(*ast.CallExpr)
+					if !ok || !ok2 || !strings.HasPrefix(f, guard+".") || len(call.Args) != 0 {
+						die("%s: assignment not recognised: %s", pos(bs), src(bs))
+					}
+					sel, ok := call.Fun.(*ast.SelectorExpr)
+					if !ok {
+						die("%s: assignment not recognised: %s", pos(bs), src(bs))
+					}
+					if gp, ok := selPath(sel.X, c.recv); !ok || gp != guard {
+						die("%s: assignment not recognised: %s", pos(bs), src(bs))
+					}
+					alwaysOf[f] = sel.Sel.Name
+					continue
+				}
 				if inner, ok := bs.(*ast.IfStmt); ok {
 					ie, ok := inner.Cond.(*ast.BinaryExpr)
 					if !ok || inner.Init != nil || inner.Else != nil || ie.Op != token.EQL || !isLit(ie.Y, `""`) || len(inner.Body.List) != 1 {
@@ -560,9 +581,32 @@ func hashData(home, txnPkg, common *pkg, recvType, method string) []entry {
 					emit(arg, "", "")
 					continue
 				}
+				// recv.P.M(): the method result is written directly (no stored copy involved)
+				if call, ok := arg.(*ast.CallExpr); ok && len(call.Args) == 0 {
+					if sel, ok := call.Fun.(*ast.SelectorExpr); ok {
+						if gp, ok := selPath(sel.X, c.recv); ok && gp == guard {
+							if wantSep {
+								die("%s: two fields written without a \":\" separator: %s", pos(bs), src(arg))
+							}
+							out = append(out, entry{path: guard + "." + sel.Sel.Name + "()", enc: "EncRaw", guard: guard})
+							wantSep = true
+							first = false
+							continue
+						}
+					}
+				}
 				p, ok := selPath(arg, c.recv)
 				if !ok || !strings.HasPrefix(p, guard+".") {
 					die("%s: guarded field must be under %s: %s", pos(bs), guard, src(arg))
+				}
+				if m, ok := alwaysOf[p]; ok { // same as writing the method result
+					if wantSep {
+						die("%s: two fields written without a \":\" separator: %s", pos(bs), src(arg))
+					}
+					out = append(out, entry{path: guard + "." + m + "()", enc: "EncRaw", guard: guard})
+					wantSep = true
+					first = false
+					continue
 				}
 				emit(arg, guard, lazyOf[p])
 			}
